@@ -20,7 +20,8 @@ type modLoc struct {
 	root  string // heap root, e.g. "H|pkg.T", "E|uint8", "C|uint64"
 	path  string // leaf path prefix
 	base  string
-	whole bool // all objects (type-level)
+	whole bool   // all objects (type-level)
+	guard string // "" or a condition under which the location is modified (dynamic type test)
 }
 
 func (m modLoc) covers(p Ptr) bool {
@@ -42,7 +43,42 @@ func (fr *Frame) evalModifies(env *Env, c *Contract) []modLoc {
 	return out
 }
 
+// guardOf finds a type assertion at the root of a location expression: x.(T).f is modified only if x has dynamic type T.
+func guardOf(env *Env, x ast.Expr) string {
+	for {
+		switch y := x.(type) {
+		case *ast.SelectorExpr:
+			x = y.X
+		case *ast.ParenExpr:
+			x = y.X
+		case *ast.StarExpr:
+			x = y.X
+		case *ast.IndexExpr:
+			x = y.X
+		case *ast.SliceExpr:
+			x = y.X
+		case *ast.TypeAssertExpr:
+			base := env.eval(y.X)
+			t := env.resolveType(y.Type)
+			if t == nil {
+				env.fail(y, "unknown type in type assertion")
+			}
+			env.vc.declIface()
+			return eq(app("itag", base.term()), env.vc.typeTag(t))
+		default:
+			return ""
+		}
+	}
+}
+
 func (fr *Frame) evalModLoc(env *Env, cl Clause) (out []modLoc) {
+	defer func() {
+		if g := guardOf2(env, cl.Expr); g != "" {
+			for i := range out {
+				out[i].guard = g
+			}
+		}
+	}()
 	defer func() {
 		if r := recover(); r != nil {
 			if ce, ok := r.(contractError); ok {
@@ -112,6 +148,15 @@ func (fr *Frame) evalModLoc(env *Env, cl Clause) (out []modLoc) {
 	return nil
 }
 
+func guardOf2(env *Env, x ast.Expr) (g string) {
+	defer func() {
+		if r := recover(); r != nil {
+			g = ""
+		}
+	}()
+	return guardOf(env, x)
+}
+
 // heapsUnder lists the known heap names covered by a modLoc.
 func (vc *VC) heapsUnder(m modLoc) []string {
 	var out []string
@@ -173,7 +218,7 @@ func (fr *Frame) frameGoal(root, path, base string) string {
 			if m.whole {
 				return "true"
 			}
-			alts = append(alts, eq(base, m.base))
+			alts = append(alts, and(m.guard, eq(base, m.base)))
 		}
 	}
 	return or(alts...)
@@ -467,6 +512,7 @@ func (fr *Frame) applyMods(st, pre *State, mods []modLoc, pos token.Pos) {
 				x.whole = true
 			} else {
 				x.targets = append(x.targets, m.base)
+				x.guards = append(x.guards, m.guard)
 			}
 		}
 	}
@@ -494,6 +540,7 @@ func (fr *Frame) execInvoke(c *ssa.CallCommon, pos token.Pos, st *State) Val {
 			dynTypes = fr.contract.Dyn[p.Name()]
 		}
 	}
+	dynFromContract := dynTypes != nil
 	if dynTypes == nil {
 		dynTypes = vc.eng.IfaceImpls[ifaceKey(c.Value.Type(), c.Method.Name())]
 	}
@@ -548,7 +595,14 @@ func (fr *Frame) execInvoke(c *ssa.CallCommon, pos token.Pos, st *State) Val {
 			}
 			brs = append(brs, branch{cond, bst, v})
 		}
-		vc.note("dynamic type of " + c.Value.Name() + " (" + c.Value.Type().String() + ") assumed to be one of {" + strings.Join(dynTypes, ", ") + "}")
+		if dynFromContract {
+			// the case split must be exhaustive: provable from the function's precondition
+			vc.callCount["dyn:"+c.Method.Name()]++
+			vc.addOblig("dyn", fmt.Sprintf("%s#dyn:%s@%d", shortFuncName(vc.fn), c.Method.Name(), vc.callCount["dyn:"+c.Method.Name()]), st, or(conds...), pos,
+				"dynamic type of "+c.Value.Name()+" is one of {"+strings.Join(dynTypes, ", ")+"}")
+		} else {
+			vc.note("dynamic type of " + c.Value.Type().String() + " values assumed to be one of {" + strings.Join(dynTypes, ", ") + "} (closed world: the implementations in this repository)")
+		}
 		// closed world: assume one of the listed types
 		var sts []*State
 		var vals []Val
